@@ -1,6 +1,7 @@
 /* tree world: C01 (ordered trees hold the inserted-minus-erased multiset, in order), C02 (red-black rules), C15 (clear), for
  * cstl_bintree and cstl_rbtree (selected per configuration) */
 #include "cstl/rbtree.h"
+#define W_AUDIT_NEW_STATES_ONLY 1   /* the key holds the implementation's raw state AND the reference model, so the audit verdict is a function of the key */
 #include "../engine/mc.h"
 #include <sanitizer/asan_interface.h>
 
@@ -394,7 +395,7 @@ static void canon_one(int t)
 {
     { ck_nodes = 0; KB_C('T'); KB_U(t_bt(t)->size); KB_C('o'); KB_U(t_bt(t)->off); if (RB) { KB_C('/'); KB_U(T[t].rb.off); } KB_C(':'); ck(t_bt(t)->root); }
 }
-static void w_canon(void) { canon_one(0); canon_one(1); }
+static void w_canon(void) { int i; canon_one(0); canon_one(1); KB_C('m'); for (i = 0; i < N; i++) KB_C(m_member[i] ? '1' : '0'); }
 /* C15: after clear the tree object must be field-for-field like the never-used second tree object */
 static void check_fresh(void)
 {
